@@ -39,9 +39,28 @@ def handler(case):
     finally:
         for s, p, o in saved:
             s.prefixes, s.order = p, o
+    res = {"lists": _lists(m)}
+    if case.get("regen"):
+        # multi-step on ONE parsed tree: edit the main class through the public ast API, generate again,
+        # and also generate from a fresh parse of the edited text
+        text2 = case["regen"]["text2"]
+        donor = P.parse(text2).classes[case["main"]]
+        for e in list(cls.equations):
+            cls.remove_equation(e)
+        for e in list(cls.initial_equations):
+            cls.remove_initial_equation(e)
+        for e in donor.equations:
+            cls.add_equation(e)
+        _trees.pop(text, None)
+        res["lists2"] = _lists(G.generate(tree, case["main"]))
+        res["fresh2"] = _lists(G.generate(P.parse(text2), case["main"]))
+    return res
+
+
+def _lists(m):
     out = {k: [_name(v) for v in getattr(m, k)] for k in LISTS}
     out["outputs"] = [str(x) for x in m.outputs]
-    return {"lists": out}
+    return out
 
 
 if __name__ == "__main__":
